@@ -205,7 +205,9 @@ pub fn run_case(case: &Value, opts: &Opts, style_seed: Option<u64>) -> Value {
         if opts.via_fs {
             // through the file system and pyxis::build (C14)
             let root = emit_dir.clone().expect("--via-fs needs --emit-dir");
-            let in_dir = root.join("input");
+            // style "script": the entry point of a build script, which reads the fixed directory `types`
+            let script = s(&input["indir"]) == "script";
+            let in_dir = root.join(if script { "types" } else { "input" });
             let out_dir = root.join("out");
             for (m, text) in mods.iter().zip(&texts) {
                 let mut p = in_dir.clone();
@@ -239,6 +241,16 @@ pub fn run_case(case: &Value, opts: &Opts, style_seed: Option<u64>) -> Value {
                 }
             }
             let _restore = Restore(saved_cwd);
+            if script {
+                std::env::set_current_dir(&root).unwrap();
+                std::env::set_var("OUT_DIR", root.join("cargo_out"));
+                std::env::set_var("CARGO_CFG_TARGET_POINTER_WIDTH", (ptr * 8).to_string());
+                if opts.dirty_out {
+                    let _ = pyxis::build(&in_dir, &out_dir, if ptr == 8 { 4 } else { 8 });
+                }
+                pyxis::build_script(Some(&out_dir)).map_err(|e| ("build".to_string(), format!("{e:#}")))?;
+                return Ok(json!({"reg": []}));
+            }
             if opts.dirty_out {
                 // the output directory already holds the result of another build (the other pointer width)
                 let _ = pyxis::build(&in_dir, &out_dir, if ptr == 8 { 4 } else { 8 });
